@@ -318,9 +318,10 @@ def _check(c):
         bodies = sorted({d for _, _, d, _ in customs if d != '!'})
         bv = [U.i_lres(o) for o in c.impl('units', [sx([Sym('eval-expr'), ictx, b]) for b in bodies])]
         extra = [[e_str(b), U.e_lres(v)] for b, v in zip(bodies, bv)]
-        a = impl_resolve(c, ictx, ids)
-        b = model_resolve(c, U.m_ctx(customs=U.customs_for_model(customs)), extra, ids)
-        for s, x, y in zip(ids, a, b):
+        reps = 4 if label in ('case-collision', 'shared-plural') else 1
+        a = impl_resolve(c, ictx, ids * reps)
+        b = model_resolve(c, U.m_ctx(customs=U.customs_for_model(customs)), extra, ids) * reps
+        for s, x, y in zip(ids * reps, a, b):
             c.note_case('custom:%s:%s' % (label, s), True, 'custom-units')
             if x[0] in ('panic', 'crash', 'bad'):
                 c.violation('resolver-crash', {'kind': 'impl-crash', 'ident': s, 'customs': customs, 'impl': repr(x)[:300]})
@@ -328,6 +329,7 @@ def _check(c):
                 c.violation('custom-model-differs', {'kind': 'impl-vs-model', 'layer': 'L1 units::query_unit', 'ident': s, 'customs': customs,
                                                      'impl': repr(x)[:400], 'model': repr(y)[:400]}, no_input=True)
         if expect:
+            expect = expect * reps
             res = l2(c, ictx, [i for i, _ in expect])
             for (inp, want), got in zip(expect, res):
                 if want == 'ERR':
@@ -340,6 +342,28 @@ def _check(c):
                     if label == 'long-prefix-attribute' and c.known_finding('custom_long_prefix_ignored'):
                         continue
                     c.violation('custom-unit-rule', {'kind': 'impl-vs-spec', 'input': inp, 'customs': customs, 'want': want, 'impl': got})
+    # custom units defined AFTER the context has been used: every later statement must see them
+    # (spec: the answer of a fresh context that was given the same custom units first)
+    defs_pool = [('pound', 'pounds', '2 kg', 'none'), ('foot', 'feet', '0.3 m', 'l'), ('mile', 'miles', '2 km', 'l'), ('hour', 'hours', '1000 s', 'l'),
+                 ('inch', 'inches', '3 cm', 'none'), ('gallon', 'gallons', '4 liters', 'none'), ('gram', 'grams', '2/1000 kilogram', 'l'),
+                 ('byte', 'bytes', '10 bits', 'l'), ('dozen', '', '13', 'alias'), ('kilo', '', '1024', 'lp'), ('percent', '', '0.02', 'alias')]
+    probes = ['1 lb to kg', '1 lbs to kg', '1 sqft to m^2', '1 kilofoot to m', '1 ft to m', '1 yard to m', '1 mph to m/s', '1 mi to m', '1 hr to s', '1 h to s',
+              '1 kph to m/s', '1 mil to m', '1 gal to m^3', '1 pint to m^3', '1 mpg to m^-2', '1 g to kg', '1 mg to kg', '1 kg to kilogram', '1 kB to bits',
+              '1 MiB to bits', '2 dozen', '1 kilometer to m', '5 % to unitless', '1 ounce to kg', '1 psi to Pa', '1 acre to m^2', '1 knot to m/s', '1 day to s']
+    hist = []
+    for j in range(12 if c.tier == 'quick' else 120):
+        steps = []
+        ds = r.sample(defs_pool, r.randint(1, 4))
+        first = r.sample(probes, r.randint(3, 8))
+        steps += [('e', x) for x in first]
+        for d in ds:
+            steps.append(('d',) + d)
+            again = r.sample(first, min(len(first), r.randint(2, 5))) + r.sample(probes, 2)
+            steps += [('e', x) for x in again]
+        hist.append(steps)
+    hist.append([('e', '1 lb to kg'), ('d', 'pound', 'pounds', '2 kg', 'none'), ('e', '1 lb to kg'), ('e', '1 sqft to m^2'), ('e', '1 kilofoot to m'),
+                 ('d', 'foot', 'feet', '0.3 m', 'l'), ('e', '1 sqft to m^2'), ('e', '1 kilofoot to m'), ('e', '1 lb to kg'), ('e', '1 yard to m')])
+    U.history_check(c, hist, 'custom-unit-history')
     # a custom unit whose definition mentions itself
     cyc = l2(c, [0, 1, [['selfref', '', '2 selfref', 'none']]], ['1 selfref'])
     c.note_case('custom:cycle', True, 'custom-units')
@@ -384,6 +408,20 @@ def custom_scenarios(c):
                [('foo', '', '1000', 'lp'), ('bar', 'bars', '3 meters', 'l')],
                ['foo', 'foometer', 'foobar', 'foobars', 'kilofoo'],
                [('1 foo', '1000'), ('1 foometer to m', '1000 m'), ('1 foobars to m', '3000 m')]))
+    # several custom units that collide only through ASCII case or through a shared plural: the first
+    # DEFINED matching entry wins (exact pass first, then the case-insensitive pass), whatever the hash order
+    sc.append(('case-collision',
+               [('Foo', '', '2 m', 'none'), ('foo', '', '3 m', 'none'), ('FOO', '', '5 m', 'none'), ('fOo', '', '7 m', 'none'),
+                ('Zed', 'Zeds', '11 m', 'none'), ('zed', 'zeds', '13 m', 'none'), ('ZED', '', '17 m', 'none')],
+               ['foo', 'Foo', 'FOO', 'fOo', 'fOO', 'FOo', 'foO', 'zed', 'Zed', 'ZED', 'zeD', 'zeds', 'Zeds', 'ZEDS', 'zEds'],
+               [('1 foo to m', '3 m'), ('1 Foo to m', '2 m'), ('1 FOO to m', '5 m'), ('1 fOo to m', '7 m'), ('1 fOO to m', '2 m'), ('1 foO to m', '2 m'),
+                ('1 zeD to m', '11 m'), ('1 ZEDS to m', '11 m'), ('1 zeds to m', '13 m'), ('1 ZED to m', '17 m'), ('1 zEds to m', '11 m')]))
+    sc.append(('shared-plural',
+               [('ox', 'oxen', '2 m', 'none'), ('oxen', '', '7 m', 'none'), ('goose', 'geese', '3 m', 'none'), ('geese', 'geeses', '5 m', 'none'),
+                ('Ox', 'oxes', '11 m', 'none'), ('moose', '', '13 m', 'none'), ('MOOSE', 'moose', '17 m', 'none')],
+               ['ox', 'oxen', 'Oxen', 'goose', 'geese', 'geeses', 'Geese', 'Ox', 'oxes', 'OX', 'moose', 'MOOSE', 'Moose'],
+               [('1 oxen to m', '2 m'), ('1 geese to m', '3 m'), ('1 geeses to m', '5 m'), ('1 Ox to m', '11 m'), ('1 OX to m', '2 m'),
+                ('1 moose to m', '13 m'), ('1 MOOSE to m', '17 m'), ('1 Moose to m', '13 m')]))
     # random fresh names, every attribute, bodies over built-in units and earlier customs
     for j in range(2 if c.tier == 'quick' else 12):
         customs = []
